@@ -46,7 +46,7 @@ type WrittenTable struct {
 	Refs     []Ref
 	Logs     []Log
 	Empty    bool
-	Rejected bool // the closure or writer returned an error
+	Rejected bool   // the closure or writer returned an error
 	Bad      string // the badness actually applied to this table ("" none)
 }
 
@@ -68,10 +68,10 @@ type CallRec struct {
 	StaleAtStart     bool
 	Retry            bool
 	AttemptsBefore   int
-	AppendVersion    int // index of the version this call's append created
-	ListChanges      int // versions of tables.list created by this call (independent of the model)
+	AppendVersion    int    // index of the version this call's append created
+	ListChanges      int    // versions of tables.list created by this call (independent of the model)
 	OpenDigest       string // digest of the view right after a successful open (porcupine read output)
-	TimeFaulted      bool // a time fault hit this task while the call was executing
+	TimeFaulted      bool   // a time fault hit this task while the call was executing
 	tfBefore         int
 	FailuresBefore   int
 	Done             bool
@@ -80,15 +80,15 @@ type CallRec struct {
 
 // HandleState is the harness' knowledge about one Stack handle.
 type HandleState struct {
-	Idx     int
-	Task    int
-	St      *reftable.Stack
-	Open    bool
-	Auto    bool
-	Version int // version the handle was last seen at (-1 unknown)
-	Broken  bool // a previous refresh failed; reads may legitimately fail until reopened
-	Tr      *reftable.Addition // open Addition (between begin and commit/abort)
-	TrOp    int                // op instance that opened it
+	Idx       int
+	Task      int
+	St        *reftable.Stack
+	Open      bool
+	Auto      bool
+	Version   int                // version the handle was last seen at (-1 unknown)
+	Broken    bool               // a previous refresh failed; reads may legitimately fail until reopened
+	Tr        *reftable.Addition // open Addition (between begin and commit/abort)
+	TrOp      int                // op instance that opened it
 	TrWritten []WrittenTable
 }
 
@@ -113,18 +113,18 @@ type World struct {
 	strat      *simrt.Random
 	bias       map[string]bool
 	// window probes
-	inWindow map[int]string // task -> window name currently open
-	maxTables int
-	interleave uint64 // hash of the projected shared-path event sequence
-	stateSet   map[uint64]bool
-	TimeFaults bool
-	StopOn     string // property whose first violation stops the run ("" = never stop early, "*" any)
+	inWindow          map[int]string // task -> window name currently open
+	maxTables         int
+	interleave        uint64 // hash of the projected shared-path event sequence
+	stateSet          map[uint64]bool
+	TimeFaults        bool
+	StopOn            string // property whose first violation stops the run ("" = never stop early, "*" any)
 	NameCheckRelevant bool
-	DeepReads bool
-	Porcupine bool
-	CrashPoints []string // class of the call each crash preceded
-	CrashEnum bool
-	DeepRefsFor bool
+	DeepReads         bool
+	Porcupine         bool
+	CrashPoints       []string // class of the call each crash preceded
+	CrashEnum         bool
+	DeepRefsFor       bool
 }
 
 func NewWorld(spec *RunSpec, sim *simrt.Sim) *World {
